@@ -199,7 +199,29 @@ func (idx *WorkspaceIndex) removeFileIndex(path string, fi *FileIndex) {
 	for payee := range fi.PayeeTemplates {
 		delete(idx.payeeTemplates, payee)
 	}
+	idx.restorePayeeTemplates(fi.PayeeTemplates)
 	idx.refreshDerived()
+}
+
+// restorePayeeTemplates re-adds, for the payees of a file that was just removed,
+// the template of another indexed file that still uses that payee (files in
+// path order, the last one wins).
+func (idx *WorkspaceIndex) restorePayeeTemplates(removed map[string][]analyzer.PostingTemplate) {
+	if len(removed) == 0 {
+		return
+	}
+	paths := make([]string, 0, len(idx.fileIndexes))
+	for path := range idx.fileIndexes {
+		paths = append(paths, path)
+	}
+	sort.Strings(paths)
+	for _, path := range paths {
+		for payee, postings := range idx.fileIndexes[path].PayeeTemplates {
+			if _, ok := removed[payee]; ok {
+				idx.payeeTemplates[payee] = postings
+			}
+		}
+	}
 }
 
 func (idx *WorkspaceIndex) decrementBy(counts map[string]int, key string, amount int) {
